@@ -37,7 +37,7 @@ def main():
         out = {}
         for pid in pids:
             t0 = time.time()
-            e = dict(env, VERIF_REPO=wt, VERIF_TIER=tier)
+            e = dict(env, VERIF_REPO=wt, VERIF_TIER=tier, VERIF_OUT=wt + "-out")
             r = sh([sys.executable, os.path.join(os.path.dirname(os.path.abspath(__file__)), pid.lower() + ".py"), "--tier", tier], cwd="/verif", env=e)
             lines = [l for l in r.stdout.splitlines() if l.startswith("VIOLATION") or l.startswith("KNOWN-FINDING") or l.startswith("INFRA")]
             print("%s: rc=%d (%.0fs) %s" % (pid, r.returncode, time.time() - t0, " | ".join(x[:140] for x in lines[:4])))
@@ -50,6 +50,8 @@ def main():
         tag = hashlib.sha256(os.path.realpath(wt).encode()).hexdigest()[:10]
         shutil.rmtree(os.path.join(tempfile.gettempdir(), "verif-harness-" + tag), ignore_errors=True)
         shutil.rmtree(wt, ignore_errors=True)
+        if "--keep-out" not in sys.argv:
+            shutil.rmtree(wt + "-out", ignore_errors=True)
 
 if __name__ == "__main__":
     sys.exit(main())
